@@ -11,7 +11,7 @@ CONSTANTS
   MaxCalls = %d
   NilSlotBeforeCall = %s
   AllowPanic = %s
-INVARIANTS NoDup Exclusive NoBad
+INVARIANTS NoDup Exclusive NoBad NoLeakWhenIdle
 CHECK_DEADLOCK FALSE
 """
 
